@@ -491,7 +491,9 @@ class Ctx:
     # -- verdict ------------------------------------------------------------------------------
     def finish(self, level="model_checking", rule="", explanation="", extra=None, required_cover=()):
         missing = [c for c in required_cover if self.cover.get(c, 0) == 0]
-        if missing:
+        # (a run that died with a violation - a driver killed under guard pages, say - explains the classes it never reached:
+        #  the violation is reported; vacuity is a tool error only when nothing was found)
+        if missing and not self.violations:
             raise ToolError("vacuity: conformance classes never exercised: %s" % missing)
         new = []
         lines = []
